@@ -30,7 +30,7 @@ pub fn def12() -> PropDef {
     PropDef {
         info: PropInfo {
             id: "C12",
-            rule: "verifier-accepted near-valid byte strings, structured programs and dense straight-line programs of every length 1-400 built from the instructions with the largest machine-code expansion (incl. 32k-100k instruction programs for the JIT and 1,000,000-instruction programs in the thorough tier), with helper sets in which called ids are present or missing; in a forked child jit_compile and cranelift_compile each run twice under catch_unwind. Oracle: Ok or Err, never a panic / abort / signal (the crate's own emit bounds assertion is active); both compilations give the same verdict and - for the JIT, through hook H2 - byte-identical code. Non-trivial = accepted program with at least one jump or call; distinct by hash.",
+            rule: "verifier-accepted near-valid byte strings, structured programs and dense straight-line programs of every length 1-400 built from the instructions with the largest machine-code expansion (incl. 32k-100k instruction programs for the JIT and 1,000,000-instruction programs in the thorough tier), with helper sets in which called ids are present or missing; in a forked child jit_compile and cranelift_compile each run twice under catch_unwind. Oracle: Ok or Err, never a panic / abort / signal (the crate's own emit bounds assertion is active); both compilations give the same verdict and - for the JIT, through hook H2 - byte-identical code. Non-trivial = accepted program with at least one jump or call, or of at least 64 instructions; distinct by hash.",
             assumptions: &["code-buffer overruns are detected by rbpf's own emit_bytes! assertion (debug assertions are on for the rbpf crate in the harness profile) and by process death", "Cranelift machine code is not compared byte for byte (no hook), only the verdicts"],
         },
         run: run12,
@@ -123,7 +123,7 @@ pub fn check05(runner: &mut Runner, case: &ExecCase, st: Option<&mut Stats>, cla
     match o {
         Outcome::Ok(_) | Outcome::Err(_) => Verdict::Pass,
         Outcome::VerifierErr(_) => Verdict::Discard("not-accepted"),
-        Outcome::Hang { .. } => Verdict::Inconclusive("interpreter hit the 20 s watchdog despite the instruction budget".into()),
+        Outcome::Hang { .. } => Verdict::Inconclusive("interpreter hit the 180 s watchdog despite the instruction budget".into()),
         other => Verdict::fail(
             format!("interp:{}", outcome_sig(other)),
             format!("{} on a verifier-accepted program\nvm={:?} pkt={} helpers={:?}\n{}", other.short(), case.vm, isa::hex(&case.pkt), case.helpers, isa::listing(&case.prog, 60).join("\n")),
@@ -205,7 +205,7 @@ pub fn check12(runner: &mut Runner, case: &mut ExecCase, engines: &[Engine], st:
                 _ => {}
             }
         }
-        if has_jump_or_call(&case.prog) {
+        if has_jump_or_call(&case.prog) || case.prog.len() >= 64 * 8 {
             st.nontrivial(case.hash());
         }
         st.sample(3, || json!({"helpers": case.helpers, "listing": isa::listing(&case.prog, 24), "outcomes": res.iter().map(|r| format!("{}: {}", r.engine.name(), r.outcome.short())).collect::<Vec<_>>()}));
@@ -310,6 +310,22 @@ fn run12(ctx: &Ctx) {
         let v = check12(&mut runner.borrow_mut(), &mut case, &jit, if frozen { None } else { Some(&mut st) }, "long");
         (v, if want_case { case.to_json() } else { Value::Null })
     });
+    // long programs through Cranelift as well (thorough only: a 33k-instruction program takes
+    // seconds to compile)
+    if ctx.tier == Tier::Thorough {
+        let cases = ctx.share(160);
+        ctx.shrink_iters.set(20);
+        ctx.search("long-both", "both", cases, gen::program(false, true), |p, want_case| {
+            let mut case = gen::lower(p);
+            if case.prog.len() / 8 > 70_000 {
+                return (Verdict::Pass, Value::Null);
+            }
+            let mut st = ctx.stats();
+            let frozen = st.is_frozen() || want_case;
+            let v = check12(&mut runner.borrow_mut(), &mut case, &both, if frozen { None } else { Some(&mut st) }, "long-cranelift");
+            (v, if want_case { case.to_json() } else { Value::Null })
+        });
+    }
     // the size limit itself (one worker): 1,000,000 instructions with jumps at both ends
     if ctx.worker == 0 {
         for (name, n) in [("million", 1_000_000usize), ("million-minus-one", 999_999)] {
